@@ -179,7 +179,8 @@ PROPS = {
         "theorems": ["Hannibal.C05_holds", "Hannibal.C05_current", "Hannibal.wellWired05_current",
                      "Hannibal.C05q_holds", "Hannibal.C05q_current", "Hannibal.monC05q_orig",
                      "Hannibal.C05d_holds", "Hannibal.C05d_current", "Hannibal.C05df_holds", "Hannibal.drun_grun"],
-        "cases": {"quick": {"C05": 1500}, "thorough": {"C05": 20000, "x:C05": 320, "C15": 3000, "C13": 3000}},
+        "cases": {"quick": {"C05": 1500, "C09@life09": 600},
+                  "thorough": {"C05": 20000, "x:C05": 320, "C15": 3000, "C13": 3000, "C09@life09": 12000}},
         "assumptions": COMMON_ASSUMPTIONS + [
             "'drains, then terminates gracefully once the last strong handle is gone' (monC05q) is proved for every run "
             "with fresh operation ids (C05q_holds; opIdsFresh is checked on every real trace; witness c05qReuseWitness "
@@ -189,6 +190,9 @@ PROPS = {
             "quiescence, and never skipped in favour of a later submission): theorem C05d_holds for runs of the model in "
             "which a client only drops the future of a call whose submission went through (drun; the acceptor applies that "
             "guard to every real trace; witness c05dGuardWitness) with fresh ids (wf01, checked by monWf01)",
+            "'broker subscriptions never keep it alive': the holder clause of monC05q is also run on every subscriber of "
+            "the broker family (C09@life09: subscribers end by stop, by ctx.stop and by the last drop, before and after "
+            "publications); the broker's table and buffers are not holders the trace knows of",
             "service registry, parent's child list and broker subscriptions as holders are multi-actor: they appear "
             "in single-actor traces as ordinary strong / weak handles held by the harness's registry and broker ops",
             "wiring hypothesis WellWired05 (strong kinds own both closures, weak kinds own nothing and must upgrade) "
